@@ -85,7 +85,7 @@ def cases(tier):
         cs.append(('number-quoted', ('n', n), 'quote'))
         cs.append(('number-like string', ('s', n, False), 'coerce'))
     cs += [('unknown', ('u',), None), ('na', ('a',), None)]
-    for t in trees(4 if tier == 'quick' else 5):
+    for t in trees(4 if tier == 'quick' else int(os.environ.get('C07_NODES', 6))):
         cs.append(('composite', t, None))
     for t in special_composites():
         cs.append(('composite-special', t, None))
@@ -181,7 +181,7 @@ def main():
                        'rule': 'value grammar: strings of length 0,1,2,255-257,511-513,5000,70000 in ASCII / BMP / supplementary / multi-line content plus syntactically special strings, quoted and unquoted; '
                                '%d number spellings plain, quoted and as coerced number-like strings; unknown, n/a; ALL lists/tables with at most %d nodes over 6 leaves; special composites (3000-unit key, 200 elements, depth 6, NFD / case-variant keys). '
                                'Each value is stored by 4 routes (set_value, add_packet, add_item, iterator update), the caller object is then mutated and freed, and read back by 3 routes (get_value, iteration, cif_walk); '
-                               'evaluations = cases x store routes x read routes' % (len(NUMBERS), 4 if tier == 'quick' else 5),
+                               'evaluations = cases x store routes x read routes' % (len(NUMBERS), 4 if tier == 'quick' else int(os.environ.get('C07_NODES', 6))),
                        'samples': [lit(cs[3][1])[:60], lit(cs[-1][1])[:80], NUMBERS[11]], 'families': fams, 'exhaustive': True},
                       ['expected = deep dump of the caller\'s value object taken before storing (kind, text, quoted, number, su, digits, scale, sign, recursive structure)'])
 
